@@ -61,3 +61,24 @@ Print Assumptions C08_reset.
 Print Assumptions C08_from_state.
 Print Assumptions C08_start_env.
 Print Assumptions C08_hidden_memory_refuted.
+
+
+(* ---- the same on the LOW-LEVEL model (model/ProxySem.v: explicit `_state_proxy` / clamp management) ----
+   A stateful=False Model.run from a state at rest leaves every node's `_state` as it was and leaves no proxy and no
+   clamp behind, whether it completes or a forward function raises part-way.  Through the refinement to ModelSem. *)
+From RV Require Import model.ProxySem proofs.Refine_proofs.
+Theorem C08_lowlevel_stateless_preserves_state {F : Type} `{Num F} (m : @model F) reset from steps (el el' : @lenv F) outs ok :
+  NoDup (ids_of m) -> at_rest el ->
+  run_op_ll m false reset from steps el = (el', outs, ok) ->
+  (forall n, lst (el' n) = lst (el n)) /\ at_rest el'.
+Proof. exact (stateless_preserves_state_ll m reset from steps el el' outs ok). Qed.
+
+(* non-vacuity: a run that fails at its second step (KBoom 2), stateless: state 0 is back, nothing is left in the proxies *)
+Example C08_lowlevel_example :
+  let m : @model Q := mkModel [mkND 0 (kfwd (KBoom 2)) None 1] (fun _ => []) [0] in
+  let steps := [((fun n : nat => Some [5%Q]), (fun _ : nat => @None (list Q))); ((fun n : nat => Some [6%Q]), (fun _ : nat => @None (list Q)))] in
+  (let '(el, outs, ok) := run_op_ll m false false (fun _ => None) steps (inject (fun _ => mkNS [0%Q] [[0%Q]])) in
+   (ok, outs, lst (el 0), proxy (el 0), clamp (el 0))) = (false, [[[5%Q]]], [0%Q], None, None).
+Proof. vm_compute. reflexivity. Qed.
+
+Print Assumptions C08_lowlevel_stateless_preserves_state.
